@@ -485,4 +485,99 @@ theorem spline_derivative_sum (t : ℕ → K) (c : ℕ → K) (j q : ℕ) (u : K
   rw [e1, e2, e3, e4]
   ring
 
+
+/-! ## from the loop body to the rows of the result -/
+
+theorem dersMid_length (ndu : ℕ → ℕ → K) (a1 : List K) (pk rk : ℤ) :
+    ∀ (cnt : ℕ) (j : ℤ) (a2 : List K) (d : K), (dersMid ndu a1 pk rk cnt j a2 d).1.length = a2.length := by
+  intro cnt
+  induction cnt with
+  | zero => intro j a2 d; rfl
+  | succ c ih => intro j a2 d; simp only [dersMid]; rw [ih]; simp
+
+theorem dersStep_length (ndu : ℕ → ℕ → K) (p r k : ℕ) (st : DState K) :
+    (dersStep ndu p r k st).1.a1.length = st.a2.length ∧ (dersStep ndu p r k st).1.a2.length = st.a1.length := by
+  unfold dersStep
+  refine ⟨?_, rfl⟩
+  simp only []
+  split_ifs <;> simp [dersMid_length]
+
+theorem dersK_length (ndu : ℕ → ℕ → K) (p r L : ℕ) :
+    ∀ (cnt k : ℕ) (st : DState K), st.a1.length = L → st.a2.length = L →
+      (dersK ndu p r cnt k st).1.a1.length = L ∧ (dersK ndu p r cnt k st).1.a2.length = L := by
+  intro cnt
+  induction cnt with
+  | zero => intro k st h1 h2; exact ⟨h1, h2⟩
+  | succ c ih =>
+    intro k st h1 h2
+    have hl := dersStep_length ndu p r k st
+    rcases hs : dersStep ndu p r k st with ⟨st', v⟩
+    rw [hs] at hl
+    have := ih (k + 1) st' (by rw [hl.1, h2]) (by rw [hl.2, h1])
+    rcases hk : dersK ndu p r c (k + 1) st' with ⟨st'', vs⟩
+    rw [hk] at this
+    simp only [dersK, hs, hk]
+    exact this
+
+/-- element `m` of the list produced by the `k`-loop is the result of the loop body at `k + m`
+for *some* state -/
+theorem dersK_get (ndu : ℕ → ℕ → K) (p r : ℕ) :
+    ∀ (cnt k : ℕ) (st : DState K) (m : ℕ), m < cnt →
+      ∃ st', ((dersK ndu p r cnt k st).2).getD m 0 = (dersStep ndu p r (k + m) st').2 ∧ (m = 0 → st' = st) := by
+  intro cnt
+  induction cnt with
+  | zero => intro k st m hm; omega
+  | succ c ih =>
+    intro k st m hm
+    rcases hs : dersStep ndu p r k st with ⟨st1, v⟩
+    rcases hk : dersK ndu p r c (k + 1) st1 with ⟨st2, vs⟩
+    cases m with
+    | zero =>
+      refine ⟨st, ?_, fun _ => rfl⟩
+      simp [dersK, hs, hk]
+    | succ m =>
+      obtain ⟨st', h1, _⟩ := ih (k + 1) st1 m (by omega)
+      refine ⟨st', ?_, fun h => by omega⟩
+      rw [hk] at h1
+      simp only [dersK, hs, hk, List.getD_cons_succ]
+      rw [h1]
+      congr 2; omega
+
+theorem dersR_length (ndu : ℕ → ℕ → K) (p nd : ℕ) :
+    ∀ (cnt r : ℕ) (a1 a2 : List K), (dersR ndu p nd cnt r a1 a2).length = cnt := by
+  intro cnt
+  induction cnt with
+  | zero => intro r a1 a2; rfl
+  | succ c ih =>
+    intro r a1 a2
+    rcases hk : dersK ndu p r nd 1 { a1 := a1.set 0 1, a2 := a2, fac := p } with ⟨st, vs⟩
+    simp [dersR, hk, ih]
+
+/-- entry `m` of the per-function lists is the `k`-loop run for function `r + m` from a state with
+`a1[0] = 1`, `fac = p` and buffers of the original length -/
+theorem dersR_get (ndu : ℕ → ℕ → K) (p nd L : ℕ) (hL : 0 < L) :
+    ∀ (cnt r : ℕ) (a1 a2 : List K) (m : ℕ), a1.length = L → a2.length = L → m < cnt →
+      ∃ st : DState K, st.a1.getD 0 0 = 1 ∧ st.fac = (p : ℤ) ∧
+        (dersR ndu p nd cnt r a1 a2).getD m [] = (dersK ndu p (r + m) nd 1 st).2 := by
+  intro cnt
+  induction cnt with
+  | zero => intro r a1 a2 m _ _ hm; omega
+  | succ c ih =>
+    intro r a1 a2 m h1 h2 hm
+    have hlen := dersK_length ndu p r L nd 1 { a1 := a1.set 0 1, a2 := a2, fac := p } (by simp [h1]) h2
+    rcases hk : dersK ndu p r nd 1 { a1 := a1.set 0 1, a2 := a2, fac := p } with ⟨st, vs⟩
+    rw [hk] at hlen
+    cases m with
+    | zero =>
+      refine ⟨{ a1 := a1.set 0 1, a2 := a2, fac := p }, ?_, rfl, ?_⟩
+      · have : 0 < a1.length := by omega
+        simp [List.getD_eq_getElem?_getD, this]
+      · simp [dersR, hk]
+    | succ m =>
+      obtain ⟨st', ha, hf, hget⟩ := ih (r + 1) st.a1 st.a2 m hlen.1 hlen.2 (by omega)
+      refine ⟨st', ha, hf, ?_⟩
+      simp only [dersR, hk, List.getD_cons_succ]
+      rw [hget]
+      congr 2; omega
+
 end Pyiga.BSpline
